@@ -26,7 +26,7 @@ func mainLoop(L *LState, baseframe *callFrame) {
 			}
 			return
 		}
-		callGFunction(L, false)
+		callGFunction(L, false, baseframe)
 		return
 	}
 
@@ -61,7 +61,7 @@ func mainLoopWithContext(L *LState, baseframe *callFrame) {
 			}
 			return
 		}
-		callGFunction(L, false)
+		callGFunction(L, false, baseframe)
 		return
 	}
 
@@ -125,9 +125,15 @@ func switchToParentThread(L *LState, nargs int, haserror bool, kill bool) {
 	}
 }
 
-func callGFunction(L *LState, tailcall bool) bool {
+func callGFunction(L *LState, tailcall bool, baseframe *callFrame) bool {
 	frame := L.currentFrame
 	gfnret := frame.Fn.GFunction(L)
+	if gfnret < 0 && baseframe != nil && L.Parent != nil {
+		// this loop was entered from a Go function (pcall, a metamethod, an
+		// iterator, a library callback): suspending here would leave that Go
+		// function running in a coroutine that is no longer the current one
+		L.RaiseError("attempt to yield across metamethod/C-call boundary")
+	}
 	if tailcall && gfnret < 0 {
 		// a tail-called yield (`return coroutine.yield(...)`): keep the calling
 		// frame and treat the call as an ordinary one returning all its results;
@@ -618,7 +624,7 @@ func init() {
 				callable, meta = L.metaCall(lv)
 			}
 			// +inline-call L.pushCallFrame callFrame{Fn:callable,Pc:0,Base:RA,LocalBase:RA+1,ReturnBase:RA,NArgs:nargs,NRet:nret,Parent:cf,TailCall:0} lv meta
-			if callable.IsG && callGFunction(L, false) {
+			if callable.IsG && callGFunction(L, false, baseframe) {
 				return 1
 			}
 			return 0
@@ -660,7 +666,7 @@ func init() {
 					Parent:     cf,
 					TailCall:   0,
 				}, lv, meta)
-				if callGFunction(L, true) {
+				if callGFunction(L, true, baseframe) {
 					return 1
 				}
 				if L.currentFrame == nil || L.currentFrame.Fn.IsG || luaframe == baseframe {
